@@ -412,8 +412,8 @@ MUTANTS = [
     dict(id="C11-M1", file=_CI, old="        r = torch.sqrt(torch.rand((num_of_params, n, 1), device=device))", new="        r = torch.rand((num_of_params, n, 1), device=device)", rule="R-C11-1", what="sqrt dropped"),
     dict(id="C11-M2", file=_SP, old="        r = torch.pow(torch.rand((num_of_params, n, 1), device=device), 1 / 3.0)", new="        r = torch.pow(torch.rand((num_of_params, n, 1), device=device), 1 / 2.0)", rule="R-C11-1", what="exponent 1/2 in the ball"),
     dict(id="C11-M3", file=_SP, old="        theta = torch.arccos(2 * theta - 1) - np.pi / 2.0\n        x = torch.multiply(torch.multiply(r,", new="        theta = torch.arccos(theta) - np.pi / 2.0\n        x = torch.multiply(torch.multiply(r,", rule="R-C11-2", what="arccos(U)"),
-    dict(id="C11-M4", file=_TR, old="        total_length = side_1 + side_2 + side_3\n        num_of_params = self.len_of_params(params)\n        points = torch.zeros((num_of_params, n, 2), device=device)\n        bound_location = (\n            torch.rand(",
-         new="        total_length = side_1 + side_2\n        num_of_params = self.len_of_params(params)\n        points = torch.zeros((num_of_params, n, 2), device=device)\n        bound_location = (\n            torch.rand(", rule="R-C11-3", what="total length without one side"),
+    dict(id="C11-M4", file=_TR, old="        total_length = side_1 + side_2 + side_3\n        num_of_params = self.len_of_params(params)\n        points = torch.zeros((num_of_params, n, 2), device=device)\n        bound_location = torch.rand(",
+         new="        total_length = side_1 + side_2\n        num_of_params = self.len_of_params(params)\n        points = torch.zeros((num_of_params, n, 2), device=device)\n        bound_location = torch.rand(", rule="R-C11-3", what="total length without one side"),
     dict(id="C11-M5", file=_U, old="        volume_ratio = torch.divide(volume_a, volume_approx)", new="        volume_ratio = torch.divide(volume_approx - volume_a, volume_approx)", rule="R-C11-5", what="mixture ratio of b"),
     dict(id="C11-M6", file=_RS, old="            permutation = torch.randperm(self.n_points)\n            lhs_points[:, i] = axis_points[permutation]\n        return lhs_points",
          new="            lhs_points[:, i] = axis_points[permutation]\n        return lhs_points", rule=None, what="(setup for M7)"),
